@@ -9,3 +9,6 @@ import Spade.Properties.C18
 #print axioms Spade.C18_code_circulation
 #print axioms Spade.C18_code_direction
 #print axioms Spade.C18_code_cell_edges_once
+#print axioms Spade.C18_star_isCycle
+#print axioms Spade.C18_code_out_edges_front
+#print axioms Spade.C18_code_out_edges_back
